@@ -185,8 +185,27 @@ def run(ctx):
                         # innermost compound statement around the reference write
                         blk = next((a for a in reversed(par.get(id(p[3]), ())) if a.get('k') == 'CompoundStmt'), None)
                         ins = False
+                        def inserts(s0):
+                            return s0 is not None and s0.get('k') == 'CXXMemberCallExpr' and (s0.get('fn') or '').split('::')[-1] in ('insert', 'push_back', 'emplace', 'emplace_back') and \
+                                any(y.get('di') == cdi for y in walk(s0['c'][0])) and any(y.get('di') == root.get('di') for a_ in call_args(s0) for y in walk(a_))
+
+                        def first_seen_test(c):
+                            """`S.insert(E).second` with the same E: true exactly when E is new, so `if (S.insert(E).second) C.push_back(E);` keeps E in C"""
+                            c = strip(c)
+                            if c is None or c.get('k') != 'MemberExpr' or not (c.get('n') or '').endswith('::second'):
+                                return False
+                            call = strip(c['c'][0]) if c.get('c') else None
+                            while call is not None and call.get('k') in ('MaterializeTemporaryExpr', 'ImplicitCastExpr', 'CXXBindTemporaryExpr') and call.get('c'):
+                                call = strip(call['c'][0])
+                            return call is not None and call.get('k') == 'CXXMemberCallExpr' and (call.get('fn') or '').endswith('::insert') and \
+                                any(y.get('di') == root.get('di') for a_ in call_args(call) for y in walk(a_))
                         for st in (blk or {}).get('c', ()):
                             s0 = strip(st)
+                            if s0.get('k') == 'IfStmt' and s0.get('else') is None and first_seen_test(s0.get('cond')):
+                                th = s0.get('then')
+                                body_sts = th.get('c', ()) if th is not None and th.get('k') == 'CompoundStmt' else [th]
+                                if any(inserts(strip(b_)) for b_ in body_sts if b_ is not None):
+                                    ins = True
                             if s0.get('k') == 'CXXMemberCallExpr' and (s0.get('fn') or '').split('::')[-1] in ('insert', 'push_back', 'emplace', 'emplace_back') and \
                                     any(y.get('di') == cdi for y in walk(s0['c'][0])) and any(y.get('di') == root.get('di') for a_ in call_args(s0) for y in walk(a_)):
                                 ins = True
